@@ -27,14 +27,14 @@ SCENARIOS = [
     ("custom,checkpoint", "pause,pause_defer", {}),
     ("custom,checkpoint,pause", "", {}),
     ("custom,checkpoint,pause_defer", "", {}),
-    ("custom,checkpoint", "pause,abort", {}),
-    ("custom,checkpoint", "pause,stop", {}),
-    ("custom,checkpoint", "pause,halt", {}),
+    ("custom,checkpoint", "pause,abort", {} if THOROUGH else {"max_requests": 2}),
+    ("custom,checkpoint", "pause,stop", {} if THOROUGH else {"max_requests": 2}),
+    ("custom,checkpoint", "pause,halt", {} if THOROUGH else {"max_requests": 2}),
     ("custom_async,checkpoint", "pause", {}),
     ("custom,clear_checkpoint,checkpoint", "pause", {}),
     ("custom,clear_checkpoint,checkpoint", "pause_defer", {}),
     ("open_run,close_run,checkpoint", "pause", {}),
-    ("open_run,custom,clear_checkpoint", "pause", {}),
+    ("open_run,custom,clear_checkpoint", "pause", {} if THOROUGH else {"max_requests": 2}),
     ("custom,checkpoint", "suspend", {}),
     ("custom,clear_checkpoint", "suspend", {}),
 ]
